@@ -1,7 +1,9 @@
 #!/bin/bash
-# usage: confirm_seed.sh <ID> <n>   — confirms a sub-agent's mutation in its scratch worktree and stores it under /verif/seeded
-id=$1; n=$2; wt=/tmp/wt_$id; m=$wt/mutations/$n
-export GOFLAGS=-mod=mod GOPROXY=off GOSUMDB=off GOTOOLCHAIN=local TMPDIR=/tmp/seedtmp_${id}_$n
+# usage: confirm_seed.sh <ID> <n> [worktree-prefix] [stored-number]
+#   confirms a sub-agent's mutation <n> in its scratch worktree /tmp/<prefix><ID> (default prefix wt_)
+#   and stores it under /verif/seeded/<ID>-<stored-number> (default <n>)
+id=$1; n=$2; pre=${3:-wt_}; out=${4:-$n}; wt=/tmp/$pre$id; m=$wt/mutations/$n
+export GOFLAGS=-mod=mod GOPROXY=off GOSUMDB=off GOTOOLCHAIN=local TMPDIR=/tmp/seedtmp_${pre}${id}_$n
 mkdir -p $TMPDIR
 cd $wt || exit 2
 git checkout -q -- lib 2>/dev/null
@@ -10,7 +12,8 @@ run_demo() {
   if [ -f $m/demo_test.go ]; then
     dir=$(head -3 $m/demo_test.go | grep -o 'package dir: [a-z/]*' | sed 's/package dir: //'); [ -z "$dir" ] && dir=lib/query
     cp $m/demo_test.go $wt/$dir/zz_demo_test.go
-    (cd $wt && go test -vet=off -count=1 -run 'Demo|C[0-9]+' ./$dir/ >/dev/null 2>&1); rc=$?
+    race=""; grep -q -- '-race' $m/demo_test.go && race="-race"
+    (cd $wt && go test $race -vet=off -count=1 -run 'Demo|C[0-9]+' ./$dir/ >/dev/null 2>&1); rc=$?
     rm -f $wt/$dir/zz_demo_test.go; return $rc
   fi
   return 99
@@ -24,6 +27,6 @@ git checkout -q -- lib
 rm -rf $TMPDIR
 echo "$id/$n: demo_clean=$clean build=$build suite_failures=[${suite}] demo_mutated=$mutated"
 if [ $clean -eq 0 ] && [ $build -eq 0 ] && [ -z "$suite" ] && [ $mutated -ne 0 ]; then
-  d=/verif/seeded/$id-$n; mkdir -p $d; cp $m/patch.diff $d/; cp $m/README.md $d/ 2>/dev/null; cp $m/demo.sh $m/demo_test.go $d/ 2>/dev/null
+  d=/verif/seeded/$id-$out; mkdir -p $d; cp $m/patch.diff $d/; cp $m/README.md $d/ 2>/dev/null; cp $m/demo.sh $m/demo_test.go $d/ 2>/dev/null
   echo CONFIRMED
 fi
